@@ -22,6 +22,7 @@ THEOREMS = [
     "O2P.Diagram.parse_ok_core",
     "O2P.Diagram.runs_types",
     "O2P.Diagram.grammar_complete",
+    "O2P.Writer.writer_vocabulary",
 ]
 PLACEHOLDER = re.compile(r"\|\|\||DUMMY|^LOOP_\d+$|^LOOP$")
 
